@@ -213,6 +213,14 @@ class ServerWorld:
                 model = T.build(mc["template"], mc["start"], mc["stop"], mc["dt"],
                                 constants=mc.get("constants"), points=mc.get("points"),
                                 initial=mc.get("initial"))
+            if mc.get("noise") and not world.cfg.get("shared_base"):
+                # a stochastic element: a user function that hands out a fresh unique value per call (what sd.random() does,
+                # deterministically): every value that was served once stays what it was
+                def fresh_value(model_, t_):
+                    world._noise_counter = getattr(world, "_noise_counter", 0) + 1
+                    return 1000.0 + world._noise_counter
+                nz = model.converter("noise")
+                nz.equation = model.function("fresh_value", fresh_value)()
             b = SimBptk()
             world.serial += 1
             b._sim_serial = world.serial
